@@ -64,6 +64,7 @@ fn main() {
         "c06_handoff" => c06::handoff(&v),
         "c14_entry" => c14::entry(&v),
         "c14_prune_select" => c14::prune_select(&v),
+        "c14_pre_commit_skip" => c14::pre_commit_skip(&v),
         "c15_comparator" => c15::comparator(&v),
         "c15_guards" => c15::guards(&v),
         "c07_journal_parse" => c07::journal_parse(&v),
@@ -74,6 +75,7 @@ fn main() {
         "c09_lookup" => c09::lookup(&v),
         "c09_overlay" => c09::overlay(&v),
         "c09_blame" => c09::blame(&v),
+        "c09_porcelain" => c09::porcelain(&v),
         "c09_note_text" => c09::note_text(&v),
         "c12_profile" => c12::profile(&v),
         "c16_tokenize" => c16::tokenize(&v),
